@@ -43,5 +43,11 @@ try:
 finally:
     subprocess.run(["git", "-C", "/repo", "worktree", "remove", "--force", wt], capture_output=True)
     shutil.rmtree(wt, ignore_errors=True)
+    # the per-worktree build directories of the witness crates and the scratch evidence are of no use once the worktree is gone
+    import hashlib
+    _h8 = hashlib.sha1(wt.encode()).hexdigest()[:8]
+    _h10 = hashlib.sha1(wt.encode()).hexdigest()[:10]
+    for _d in ("witness_cf-" + _h8, "witness_ctfe-" + _h8, os.path.join("scratch-evidence", _h10)):
+        shutil.rmtree(os.path.join(os.path.dirname(os.path.dirname(os.path.abspath(__file__))), ".cache", _d), ignore_errors=True)
     subprocess.run(["git", "-C", "/repo", "worktree", "prune"], capture_output=True)
     # evidence files were rewritten against the scratch tree: regenerate is the caller's business
